@@ -1176,6 +1176,33 @@ Definition cobs (k : call) (r : rstate) : option (string * list string) :=
   | None => None
   end.
 
+(* ------------------------------------------------------------------ the record as the hook sees it *)
+
+(* Projection of the compiled record in the terms compose/verif_c09.go VerifC09Project reads
+   off the *runner that Compile built (harness/cmd/c09/record.go projString prints the same
+   format): trigger mode, step limit (0 for all-predecessor graphs: they have none), whether
+   the graph declares state, node keys (a nested graph with its own projection), data edges,
+   branches with their end nodes; every list sorted bytewise after rendering its items.
+   [d] is the nesting fuel of the compiled object ([co_depth]); a description nested deeper
+   renders "FUEL", which no record renders. *)
+Definition b01 (b : bool) : string := if b then "1" else "0".
+
+Fixpoint rproj (d : nat) (g : graph) : string :=
+  let node_str (n : node) :=
+    match n_fun n with
+    | FSub g' => n_key n ++ ":" ++ match d with O => "FUEL" | S d' => rproj d' g' end
+    | _ => n_key n
+    end in
+  "G{dag=" ++ b01 (g_dag g)
+  ++ ";max=" ++ (if g_dag g then "0" else nstr (g_max g))
+  ++ ";state=" ++ b01 (g_hasstate g)
+  ++ ";nodes=[" ++ join "," (sort_strings (map node_str (g_nodes g)))
+  ++ "];data=[" ++ join "," (sort_strings (map (fun e => fst e ++ ">" ++ snd e) (g_edges g)))
+  ++ "];br=[" ++ join "," (sort_strings (map (fun b => b_from b ++ "?" ++ join "|" (sort_strings (b_ends b))) (g_branches g)))
+  ++ "]}".
+
+Definition crec_proj (c : cobj) : string := rproj (co_depth c) (co_graph c).
+
 (* the run alone, to completion; None = out of fuel *)
 Definition erun (c : cobj) (fuel : nat) (k : call) : option (string * list string) :=
   cobs k (iter_opt fuel (estep c) (einit c k)).
